@@ -171,3 +171,126 @@ func VerifWGSplit() {
 	}
 	verif.Assert(sum == total, "the per-GPU shares do not add up to the grid")
 }
+
+// zzvDevMap stands in for the allocator: only the owner lookup is used by the
+// DMA-path middleware. GPU 1 owns [0x1000,0x2000), GPU 2 owns [0x2000,0x4000).
+type zzvDevMap struct{ internal.MemoryAllocator }
+
+func (zzvDevMap) GetDeviceIDByPAddr(p uint64) int {
+	if p < 0x2000 {
+		return 1
+	}
+	return 2
+}
+
+// VerifDMAPathCopy (C11): the driver's DMA-path middleware
+// (defaultMemoryCopyMiddleware) splits an H2D / D2H copy over 3 virtual pages
+// into requests to the GPUs. The GPUs' DMA engines are played by the harness
+// on a flat physical memory with symbolic contents: the requests of an H2D
+// must change exactly the bytes backing the written range to the payload, the
+// requests of a D2H must assemble exactly the bytes backing the read range,
+// each request must go to the GPU that owns its physical address.
+func VerifDMAPathCopy() {
+	pt := vm.NewPageTable(6)
+	placements := [][3]uint64{
+		{0x1000, 0x1040, 0x1080}, // physically contiguous
+		{0x1000, 0x1080, 0x1040}, // same GPU, not adjacent / reversed
+		{0x1040, 0x2000, 0x1000}, // alternating GPUs
+		{0x2040, 0x1000, 0x10c0}, // same GPU with a gap
+	}
+	pl := placements[verif.Choice(len(placements))]
+	pid := vm.PID(1)
+	vbase := uint64(0x4000)
+	for i := 0; i < 3; i++ {
+		pt.Insert(vm.Page{PID: pid, VAddr: vbase + uint64(i)*zzvCPage, PAddr: pl[i], PageSize: zzvCPage, Valid: true})
+	}
+	comp := simstub.NewComp("GPUs")
+	d := &Driver{pageTable: pt, memAllocator: zzvDevMap{}}
+	d.TickingComponent = sim.NewTickingComponent("Driver", simstub.NewEngine(), 1*sim.GHz, d)
+	d.gpuPort = sim.NewPort(d, 4, 4, "Driver.ToGPUs")
+	d.GPUs = []sim.Port{sim.NewPort(comp, 4, 4, "GPU1"), sim.NewPort(comp, 4, 4, "GPU2")}
+	m := &defaultMemoryCopyMiddleware{driver: d, cyclesPerH2D: 1, cyclesPerD2H: 1}
+	q := &CommandQueue{Context: &Context{pid: pid}, PID: pid}
+
+	// flat physical memory; a byte never seen before has an arbitrary value
+	phys := map[uint64]byte{}
+	rd := func(a uint64) byte {
+		if _, ok := phys[a]; !ok {
+			phys[a] = verif.Bytes(1)[0]
+		}
+		return phys[a]
+	}
+	vToP := func(v uint64) uint64 { return pl[v/zzvCPage] + v%zzvCPage }
+
+	offs := []uint64{0, 1, 31, 63, 64, 65, 100, 127, 128, 129, 191}
+	lens := []uint64{1, 2, 33, 63, 64, 65, 128, 129, 192}
+	off := offs[verif.Choice(len(offs))]
+	n := lens[verif.Choice(len(lens))]
+	if off+n > 3*zzvCPage {
+		return
+	}
+	route := func(dst sim.RemotePort, pa uint64) {
+		verif.Assert(dst == d.GPUs[zzvDevMap{}.GetDeviceIDByPAddr(pa)-1].AsRemote(), "copy request sent to a GPU that does not own the physical address")
+	}
+
+	if verif.Choice(2) == 0 { // host to device
+		before := map[uint64]byte{}
+		for v := uint64(0); v < 3*zzvCPage; v++ {
+			before[vToP(v)] = rd(vToP(v))
+		}
+		payload := verif.Bytes(int(n))
+		h2d := &MemCopyH2DCommand{ID: "h2d", Dst: Ptr(vbase + off), Src: payload}
+		q.commands = []Command{h2d}
+		verif.Assert(m.ProcessCommand(h2d, q), "H2D command not processed")
+		verif.Assert(len(m.awaitingReqs) == len(h2d.Reqs), "not every H2D request is queued for sending")
+		for _, r := range h2d.Reqs {
+			w, ok := r.(*protocol.MemCopyH2DReq)
+			verif.Assert(ok, "H2D command produced something that is not an H2D request")
+			if !ok {
+				continue
+			}
+			route(w.Dst, w.DstAddress)
+			for i := range w.SrcBuffer {
+				phys[w.DstAddress+uint64(i)] = w.SrcBuffer[i]
+			}
+		}
+		for v := uint64(0); v < 3*zzvCPage; v++ {
+			want := before[vToP(v)]
+			if v >= off && v < off+n {
+				want = payload[v-off]
+			}
+			verif.Assert(rd(vToP(v)) == want, "device memory after the H2D requests differs: written range must hold the payload, the rest of the buffer must be unchanged")
+		}
+		for a, b := range phys {
+			if _, ours := before[a]; !ours {
+				_ = b
+				verif.Fail("an H2D request writes physical memory that does not belong to the buffer")
+			}
+		}
+		verif.Observe(uint64(len(h2d.Reqs)))
+		return
+	}
+	back := make([]byte, n)
+	d2h := &MemCopyD2HCommand{ID: "d2h", Src: Ptr(vbase + off), Dst: back}
+	q.commands = []Command{d2h}
+	verif.Assert(m.ProcessCommand(d2h, q), "D2H command not processed")
+	verif.Assert(len(m.awaitingReqs) == len(d2h.Reqs), "not every D2H request is queued for sending")
+	for _, r := range d2h.Reqs {
+		g, ok := r.(*protocol.MemCopyD2HReq)
+		verif.Assert(ok, "D2H command produced something that is not a D2H request")
+		if !ok {
+			continue
+		}
+		route(g.Dst, g.SrcAddress)
+		for i := range g.DstBuffer {
+			g.DstBuffer[i] = rd(g.SrcAddress + uint64(i)) // what the GPU's DMA engine does
+		}
+	}
+	verif.Assert(uint64(len(d2h.RawData)) == n, "D2H staging buffer has the wrong length")
+	same := true
+	for i := uint64(0); i < n && i < uint64(len(d2h.RawData)); i++ {
+		same = verif.And(same, d2h.RawData[i] == rd(vToP(off+i)))
+	}
+	verif.Assert(same, "the bytes assembled by the D2H requests differ from the device memory backing the requested range")
+	verif.Observe(uint64(len(d2h.Reqs)))
+}
